@@ -51,7 +51,7 @@ func (c *Compiler) validateGroupingsWalk(m parse.Node, n parse.Node) error {
 func (c *Compiler) validateAllGroupings(m parse.Node, n parse.Node) error {
 
 	for _, g := range n.ChildrenByType(parse.NodeGrouping) {
-		group_map := make(map[string]bool)
+		group_map := make(map[parse.Node]bool)
 		if err := c.validateGrouping(m, g, group_map); err != nil {
 			return err
 		}
@@ -82,14 +82,15 @@ func usesUnder(n parse.Node) []parse.Node {
 func (c *Compiler) validateGrouping(
 	m parse.Node,
 	g parse.Node,
-	group_map map[string]bool) error {
+	group_map map[parse.Node]bool) error {
 
-	if _, present := group_map[g.Name()]; present {
+	// (by grouping, not by name: groupings of unrelated scopes may share one)
+	if _, present := group_map[g]; present {
 		return fmt.Errorf("Grouping cycle detected in: grouping %s", g.Name())
 	}
 
-	group_map[g.Name()] = true
-	defer delete(group_map, g.Name())
+	group_map[g] = true
+	defer delete(group_map, g)
 	for _, u := range usesUnder(g) {
 		gname := u.ArgIdRef()
 		mod, err := u.GetModuleByPrefix(
